@@ -39,6 +39,7 @@ ResDiff(a, e) ==
   ELSE IF ReqsDiff(a.reqs, e.reqs) # "" THEN ReqsDiff(a.reqs, e.reqs)
   ELSE IF e.judge # "all" THEN ""
   ELSE IF CallsDiff(a.calls, e.calls) # "" THEN CallsDiff(a.calls, e.calls)
+  ELSE IF e.first >= 0 /\ a.first # e.first THEN "observer:first-attempt-index"
   ELSE IF a.tracer # e.tracer \/ a.traced # e.traced THEN "tracer"
   ELSE IF e.att >= 0 /\ a.att # e.att THEN "Attempts"
   ELSE IF e.att >= 0 /\ a.lat # e.lat THEN "Latency"
